@@ -344,6 +344,8 @@ class WriterEval(object):
             if isinstance(v, ast.Constant): return v.value is None
             if isinstance(v, (ast.List, ast.Tuple)): return bool(v.elts) and all(noneish(x) for x in v.elts)
             if isinstance(v, ast.BinOp) and isinstance(v.op, ast.Mult): return noneish(v.left)
+            # `vals += [None, None]` (recorded as vals + [None, None]): the same list with absent values appended
+            if isinstance(v, ast.BinOp) and isinstance(v.op, ast.Add) and isinstance(v.left, ast.Name) and v.left.id == key: return noneish(v.right)
             return False
         if noneish(best[1]):
             nn = [c for c in cands if not noneish(c[1])]
